@@ -75,7 +75,9 @@ NInit == /\ ncell \in NCells
          /\ npos = <<>> /\ nphase = 0
 AddAtom == /\ Len(npos) < NAtoms
            /\ \E r \in Coords[Len(npos)+1][1] \X Coords[Len(npos)+1][2] \X Coords[Len(npos)+1][3] :
-                 npos' = Append(npos, PtOf(ncell, r))
+                 \* the grid point nearest below the relative coordinate; for a tilted cell the truncation can leave the cell, and the
+                 \* property only speaks about atoms inside it
+                 InsideIncl(ncell, PtOf(ncell, r)) /\ npos' = Append(npos, PtOf(ncell, r))
            /\ nphase' = IF Len(npos) + 1 = NAtoms THEN 1 ELSE 0
            /\ UNCHANGED <<ncell, npbc, ncut>>
 NNext == AddAtom
